@@ -3,7 +3,7 @@
    Preserved by every message, by both EndBlock phases and by the clock tick. *)
 From Coq Require Import List ZArith Bool Lia Permutation.
 From SVC Require Import Base.AMap Base.Res Base.Dec Model.Types Model.Pricing
-  Model.Handlers Model.EndBlock Model.Step Proofs.Inv Proofs.Lemmas Proofs.InvWf Proofs.PFrame.
+  Model.Handlers Model.EndBlock Model.Step Proofs.Inv Proofs.Lemmas Proofs.InvWf Proofs.PFrame Proofs.WdLemmas.
 Import ListNotations.
 Open Scope Z_scope.
 
@@ -294,7 +294,7 @@ Definition withdraw_dest (s : State) (owner : Z) : Z :=
   match get owner (wdaddr s) with Some a => a | None => owner end.
 
 Lemma withdraw_inv cfg s owner prov ok s' :
-  I_index cfg s -> I_earn s -> h_withdraw s owner prov ok = Ok s' ->
+  I_wd s -> I_index cfg s -> I_earn s -> h_withdraw s owner prov ok = Ok s' ->
   ok = true
   /\ ((prov =? 0) = false -> get prov (owner_of s) = Some owner)
   /\ exists s3,
@@ -302,7 +302,7 @@ Lemma withdraw_inv cfg s owner prov ok s' :
          (withdraw_books s owner prov) = Some s3
        /\ s' = emit (EvWithdraw owner (withdraw_dest s owner) (withdraw_amount s owner prov)) s3.
 Proof.
-  intros PI P H. unfold h_withdraw in H. inv_ok H.
+  intros Hwd PI P H. unfold h_withdraw in H. rewrite (withdraw_dacct s owner Hwd) in H. inv_ok H.
   pose proof (withdraw_check _ _ _ Hc0) as Ho.
   split; [exact Hc|]. split; [exact Ho|].
   unfold withdraw_books, withdraw_amount. fold (withdraw_dest s owner) in H.
@@ -331,9 +331,9 @@ Proof.
 Qed.
 
 Lemma earn_withdraw cfg s owner prov ok s' :
-  I_wf s -> I_index cfg s -> I_earn s -> h_withdraw s owner prov ok = Ok s' -> I_earn s'.
+  I_wd s -> I_wf s -> I_index cfg s -> I_earn s -> h_withdraw s owner prov ok = Ok s' -> I_earn s'.
 Proof.
-  intros Hwf PI P H. pose proof (withdraw_inv _ _ _ _ _ _ PI P H) as (_ & Ho & s3 & Et & ->).
+  intros Hwd Hwf PI P H. pose proof (withdraw_inv _ _ _ _ _ _ Hwd PI P H) as (_ & Ho & s3 & Et & ->).
   eapply earn_cframe; [apply cf_emit|].
   eapply earn_cframe; [eapply cf_transfer; eauto|].
   eapply earn_withdraw_books; eauto.
@@ -381,7 +381,7 @@ Proof.
   destruct (earn_op o) eqn:He.
   - destruct o; try discriminate; cbn [handle] in H.
     + eapply earn_respond; eauto. apply HI.
-    + eapply earn_withdraw; eauto. apply HI.
+    + eapply earn_withdraw; eauto; apply HI.
   - destruct (is_bind o) eqn:Hb.
     + destruct o; try discriminate; cbn [handle] in H. eapply earn_bind; eauto.
     + pose proof (eframe_msg _ _ _ _ H He) as [E1 E2].
